@@ -1268,7 +1268,4 @@ impl Engine for StakeSim {
         })
     }
 
-    fn matches_signature(&self, _case: &Case, _v: &Violation, _sig: &serde_json::Value) -> bool {
-        false
-    }
 }
